@@ -115,7 +115,7 @@ type Resp struct {
 }
 
 // FirstError returns the first error batch, or nil.
-func (r *Resp) FirstError() *Batch {
+func (r Resp) FirstError() *Batch {
 	for i := range r.Batches {
 		if r.Batches[i].Kind == "error" {
 			return &r.Batches[i]
@@ -125,7 +125,7 @@ func (r *Resp) FirstError() *Batch {
 }
 
 // ErrorKind returns vgi_rpc.error_kind of the first error batch ("" if none).
-func (r *Resp) ErrorKind() string {
+func (r Resp) ErrorKind() string {
 	if b := r.FirstError(); b != nil {
 		return b.Meta["vgi_rpc.error_kind"]
 	}
@@ -133,7 +133,7 @@ func (r *Resp) ErrorKind() string {
 }
 
 // Token returns the stream-state and call-state tokens found in the response.
-func (r *Resp) Token() (state, call string, ok bool) {
+func (r Resp) Token() (state, call string, ok bool) {
 	for i := range r.Batches {
 		if r.Batches[i].Meta["vgi_rpc.stream_state#b64"] != "" {
 			return r.Batches[i].Meta["vgi_rpc.stream_state#b64"], r.Batches[i].Meta["vgi_rpc.call_state#b64"], true
@@ -143,7 +143,7 @@ func (r *Resp) Token() (state, call string, ok bool) {
 }
 
 // DataInt64 returns the int64 values of all data batches, in order.
-func (r *Resp) DataInt64() []int64 {
+func (r Resp) DataInt64() []int64 {
 	var out []int64
 	for _, b := range r.Batches {
 		if b.Kind == "data" {
@@ -154,7 +154,7 @@ func (r *Resp) DataInt64() []int64 {
 }
 
 // DataStr returns the utf8 values of all data batches, in order.
-func (r *Resp) DataStr() []string {
+func (r Resp) DataStr() []string {
 	var out []string
 	for _, b := range r.Batches {
 		if b.Kind == "data" {
